@@ -203,6 +203,11 @@ def in_fresh_fork(fn, arg, watchdog=600):
         code = 0
         try:
             os.close(r)
+            # the library under test may print and warn; neither belongs in the check's output
+            dn = os.open(os.devnull, os.O_WRONLY)
+            os.dup2(dn, 1)
+            import warnings
+            warnings.simplefilter("ignore")
             signal.signal(signal.SIGALRM, signal.SIG_DFL)
             faulthandler.register(signal.SIGALRM, all_threads=True, chain=True)
             signal.alarm(int(watchdog))
